@@ -750,7 +750,7 @@ func checkSorters(c *Ctx) {
 				if len(t.keys) > 1 {
 					ord[t.keys[1]] = o2
 				}
-				got, why := interpretLess(fn, ord, keysSeen)
+				got, why := interpretLess(fn, ord, keysSeen, nil)
 				c.Sites++
 				if got < 0 {
 					bad = "not interpretable: " + why
